@@ -9,7 +9,7 @@
 //! match its own replication state.
 
 use crate::model::cluster::{deltas_of, Node, SimNet};
-use crate::model::crdt::proj_s;
+use crate::model::crdt::{proj_conv_s, proj_s};
 use crate::model::wire::{show_cmd, R};
 use crate::simkit::clock::SimClock;
 use crate::simkit::rt;
@@ -184,7 +184,7 @@ impl Property for C06 {
                     return o;
                 }
                 // replication metadata agrees too
-                let projs: Vec<Option<String>> = snaps.iter().map(|s| s.get(k).map(proj_s)).collect();
+                let projs: Vec<Option<String>> = snaps.iter().map(|s| s.get(k).map(proj_conv_s)).collect();
                 if projs.iter().any(|p| p != &projs[0]) {
                     o.viol.push((format!("C06/replication-state-differs/{}", class), format!("key {}: {}", k, projs.iter().enumerate().map(|(i, p)| format!("node{}: {}", i + 1, p.clone().unwrap_or_else(|| "<absent>".into()))).collect::<Vec<_>>().join(" | "))));
                     return o;
